@@ -10,8 +10,9 @@ Local Open Scope list_scope.
 
 (* what a faulty SQL driver may answer: an error of its own, or one of the sentinels that
    database/sql, sqlx's breaker and applications compare against *)
-Inductive fkind := KBadConn | KConnDone | KTxDone | KCanceled | KDeadline.
-   (* driver.ErrBadConn, sql.ErrConnDone, sql.ErrTxDone, context.Canceled, context.DeadlineExceeded *)
+Inductive fkind := KBadConn | KConnDone | KTxDone | KCanceled | KDeadline | KNoRows.
+   (* driver.ErrBadConn, sql.ErrConnDone, sql.ErrTxDone, context.Canceled, context.DeadlineExceeded,
+      sql.ErrNoRows (= sqlx.ErrNotFound = sqlc.ErrNotFound; also what a body may hand back itself) *)
 Inductive fault := FNone | FGen | FKind (k : fkind)
   | FCtx (k : fkind).   (* statements only: database/sql refuses it because the statement's OWN ctx is done
                            (k = KCanceled / KDeadline): ctx.Err() comes back, the driver is not called *)
